@@ -76,6 +76,8 @@ func VerifC15(p C15Params) *vsched.Scenario {
 	}
 	sc.Body = func() {
 		s := c15
+		// the application configures error reporting again with the value already in effect (a no-op that must stay one)
+		SetStdErrReporting(false)
 		m := Register("mod", nil, nil, nil)
 		if err := Start(); err != nil {
 			verifFail("harness", "start", "Start failed: %v", err)
